@@ -338,7 +338,7 @@ def check(F, R, tier):
 
 LEVEL_TEXT = ("Decides, on every CFG path of the real queue code, the release/acquire ordering floors, the order of slot access "
               "versus cursor publication, slot-count agreement (allocation = modulus) and the completion-queue sizing polynomial. "
-              "These are necessary conditions of FIFO conservation under the C11 model; linearizability itself is not decided.")
+              "These are necessary conditions of FIFO conservation under the C11 model; Also: the generic queue's slot is position % CAPACITY, the two queue capacities keep their roles from the builder to Channel::new. Linearizability itself is not decided.")
 LEVEL_NOTE = ("Trusted: rustc MIR + resolution; the floor table (minimal orderings argued in DESIGN.md C03). Not decided: behaviour over interleavings. "
               "A weakened ordering, a reordered slot access/publication, a changed modulus or queue size is reported with file:line.")
 TECHNIQUE = "static analysis: MIR dominance + memory-ordering constant rules + symbolic size polynomials (custom rustc driver)"
